@@ -226,11 +226,52 @@ func emitFacts(pkgs map[string]*parsed) string {
 	sb.WriteString(" }\n")
 	sb.WriteString("\n/-- NewControlBeheraPasswordPolicy range-checks the error code on both sides before narrowing -/\n")
 	sb.WriteString("def beheraErrRange : Bool := " + leanBool(beheraErrRange(pkgs)) + "\n")
+	sb.WriteString("\n/-- searchParmeters decodes the dnAttributes flag of extensible matches (a context-specific BOOLEAN, which ber leaves\n    undecoded) before it hands the filter to ldap.DecompileFilter -/\n")
+	sb.WriteString("def filterDNAttrsDecoded : Bool := " + leanBool(filterDNAttrsDecoded(pkgs)) + "\n")
 	sb.WriteString("\n/-- (*Mux).serve: route operation -> application code of the built-in refusal -/\n")
 	sb.WriteString("def refusalTable : Option (List (List UInt8 × Nat)) := " + refusalTable(pkgs) + "\n")
 	sb.WriteString(emitRuntimeFacts(pkgs))
 	sb.WriteString("\nend Gldap.Generated\n")
 	return sb.String()
+}
+
+// filterDNAttrsDecoded: in searchParmeters, before the call of ldap.DecompileFilter, a function of the package is
+// called on the same filter element, and that function (walking And / Or / Not) assigns a bool to the Value of the
+// children with tag MatchingRuleAssertionDNAttributes of elements with tag FilterExtensibleMatch.
+func filterDNAttrsDecoded(pkgs map[string]*parsed) bool {
+	g := pkgs["gldap"]
+	sp := findFunc(g, "packet.searchParmeters")
+	if sp == nil {
+		return false
+	}
+	helper, arg, seenDecompile, ok := "", "", false, false
+	ast.Inspect(sp.Body, func(n ast.Node) bool {
+		c, isCall := n.(*ast.CallExpr)
+		if !isCall {
+			return true
+		}
+		switch fn := exprText(c.Fun); {
+		case fn == "ldap.DecompileFilter" && len(c.Args) == 1:
+			if !seenDecompile && helper != "" && exprText(c.Args[0]) == arg {
+				ok = true
+			}
+			seenDecompile = true
+		case !seenDecompile && len(c.Args) == 1 && !strings.Contains(fn, ".") && findFunc(g, fn) != nil && strings.Contains(exprText(c.Args[0]), "childFilter"):
+			helper, arg = fn, exprText(c.Args[0])
+		}
+		return true
+	})
+	if !ok {
+		return false
+	}
+	h := findFunc(g, helper)
+	body := exprText(h.Body)
+	for _, need := range []string{"ldap.FilterAnd", "ldap.FilterOr", "ldap.FilterNot", "ldap.FilterExtensibleMatch", "ldap.MatchingRuleAssertionDNAttributes", helper + "(child)", "len(b) == 1", "child.Value = b[0] != 0"} {
+		if !strings.Contains(body, need) {
+			return false
+		}
+	}
+	return true
 }
 
 // beheraErrRange: some case of the constructor's switch rejects both withErrorCode > 8 and
